@@ -21,6 +21,7 @@ class Hub:
     def __init__(self, corrupt=(), holds=None, max_hold=0.08, mode="firmware", instant=False):
         self.instant = instant           # zero latency: the reply is read and handled by the host's reader BEFORE write() returns
         self.auto = None                 # manual mode: callable(data) -> lines said at once (zero latency) for that transmission
+        self.fail_write = None           # callable(data) -> True when the serial port must refuse this write
         self.njob = 1                    # streamed jobs on this connection so far (run_job with next_jobs)
         self.job_first = True            # the next job-phase transmission is the first of its job
         self.corrupt_open = set()        # job numbers whose opening M110 the link corrupts
@@ -173,10 +174,15 @@ class FakeSerial:
         self.is_open = False
 
     def write(self, data):
+        import serial
         if not self.is_open:
-            import serial
             raise serial.SerialException("closed")
-        FakeSerial.hub.on_write(data)
+        hub = FakeSerial.hub
+        if hub.fail_write is not None and hub.fail_write(bytes(data)):
+            # the port refuses this write (reads keep timing out: the reader thread stays alive)
+            hub.log({"k": "wfail", "text": list(bytes(data))})
+            raise serial.SerialException("write failed")
+        hub.on_write(data)
         return len(data)
 
     def readline(self):
@@ -564,7 +570,7 @@ def _is_m110(data):
 
 
 def run_direct(stmts, acks, status=None, late_hs=False, settle=0.02, do_disconnect=True, readings=False,
-               deadline=2.5, mode="serial", lose_at=0, slow=None, lose_idle_after=0, instant=(), idle_lines=None):
+               deadline=2.5, mode="serial", lose_at=0, slow=None, lose_idle_after=0, instant=(), idle_lines=None, fail_write_at=0):
     """Drive the real SerialWriter/PrintrunWriter. stmts: list of bytes handed to write(); acks: the reply line
     (bytes) the device gives to each statement; status: {k: [lines pushed before the ack of statement k]};
     late_hs: the ok of the second start-up M110 is released only after the first write() began."""
@@ -608,6 +614,17 @@ def run_direct(stmts, acks, status=None, late_hs=False, settle=0.02, do_disconne
 
     instant = set(instant or ())
     answered = set()
+    failed = set()
+
+    def fail_write(data):
+        """The serial port refuses the write of statement `fail_write_at` (once)."""
+        if not fail_write_at or _is_m110(data) or bytes(data).startswith(b"G4 P0") or fail_write_at in failed:
+            return False
+        if ntx_stmt() + 1 + len(failed) == fail_write_at:
+            failed.add(fail_write_at)
+            return True
+        return False
+    hub.fail_write = fail_write
 
     def auto(data):
         """Zero latency for the statements in `instant`: status lines and acknowledgement are said inside write()."""
@@ -655,6 +672,13 @@ def run_direct(stmts, acks, status=None, late_hs=False, settle=0.02, do_disconne
                     hub.log({"k": "ret", "s": k, "res": res, "readings": snap})
                 wt = threading.Thread(target=do_write, daemon=True)
                 wt.start()
+                if fail_write_at == k:
+                    # nothing reaches the device: write() must raise, and return
+                    ok = await_(lambda: any(e["k"] == "ret" and e["s"] == k for e in hub.events), deadline)
+                    if not ok:
+                        hub.log({"k": "stuck", "s": k, "tx": False})
+                    do_disconnect = False
+                    break
                 got_tx = await_(lambda: ntx_stmt() >= k, deadline)
                 if held:
                     hub.push(held.pop(0))["hs"] = True
